@@ -1,12 +1,259 @@
 /-
   UnytModel.Ops.C01 — opcodes of the C01 model (prefix `c01.`).
+
+  c01.dispatch  <ufunc> <method> <nin> <operand>… <out> <axisLen|-> <kernelErr|-> <kernelShape d,d,…> <eq|ne|->
+      operand :=  U <a|q> <unit> <data> | B <data> | S <n> (<-> | u <unit>)… <data>
+      unit    :=  <scale bits> <offset bits> <dim> <coeff bits> <factors> <repr>
+      data    :=  <shape d,d,…> <allZero 0|1> <kind f|i|u|c|b|o> <itemsize> <constant 0|1> <first p/q>
+      out     :=  N | O <isUnyt> <isInt> | M <n> (<-> | o <isUnyt> <isInt>)…
+    → ok <unit: scale offset dim | none> <factor|none> <fsz|none> <mul> <early none|0|1> <effects>
+    | err <Name> <effects>
+  c01.validate / c01.validate_v2 / c01.comp / c01.setitem / c01.to / c01.coerce
+  c01.dump.rule / c01.dump.sets / c01.dump.checks / c01.covered
 -/
 import UnytModel.DriverBase
+import UnytModel.Ufunc
+import UnytModel.ArrayChecks
+import UnytModel.Ref.C01
 
 namespace Unyt
+open Unyt.Ufunc Unyt.ArrayChecks
 
-def opsC01 : Handler := fun _st fields =>
+namespace C01Wire
+
+abbrev P (α : Type) := List String → Option (α × List String)
+
+def pUnit : P (UnitR Float)
+  | sc :: off :: dim :: co :: fac :: rp :: rest =>
+    (parseUnitV sc off dim co fac).map fun u => (⟨u, rp⟩, rest)
+  | _ => none
+
+def pShape (s : String) : Option (List Nat) :=
+  if s == "" then some [] else (s.splitOn ",").mapM String.toNat?
+
+def pKind (s : String) : Option DtKind :=
+  match s with
+  | "f" => some .f | "i" => some .i | "u" => some .u | "c" => some .c | "b" => some .b
+  | "o" => some .other | _ => none
+
+def pData : P Data
+  | sh :: z :: k :: isz :: cst :: fst :: rest => do
+    let shape ← pShape sh
+    let z ← parseBool z
+    let k ← pKind k
+    let isz ← isz.toNat?
+    let cst ← parseBool cst
+    let fst ← parseRat fst
+    some ({ shape := shape, allZero := z, kind := k, itemsize := isz, constant := cst, first := fst }, rest)
+  | _ => none
+
+def pItems : Nat → List String → Option (List (Option (UnitR Float)) × List String)
+  | 0, rest => some ([], rest)
+  | n + 1, "-" :: rest => (pItems n rest).map fun r => (none :: r.1, r.2)
+  | n + 1, "u" :: rest =>
+    match pUnit rest with
+    | some (u, rest') => (pItems n rest').map fun r => (some u :: r.1, r.2)
+    | none => none
+  | _, _ => none
+
+def pOperand : P (Operand Float)
+  | "U" :: cls :: rest => do
+    let c ← (if cls == "a" then some Cls.array else if cls == "q" then some Cls.quantity else none)
+    let (u, rest) ← pUnit rest
+    let (d, rest) ← pData rest
+    some (.unyt c u d, rest)
+  | "B" :: rest => (pData rest).map fun r => (.bare r.1, r.2)
+  | "S" :: n :: rest => do
+    let n ← n.toNat?
+    let (items, rest) ← pItems n rest
+    let (d, rest) ← pData rest
+    some (.seq items d, rest)
+  | _ => none
+
+def pOperands : Nat → List String → Option (List (Operand Float) × List String)
+  | 0, rest => some ([], rest)
+  | n + 1, rest =>
+    match pOperand rest with
+    | some (o, rest') => (pOperands n rest').map fun r => (o :: r.1, r.2)
+    | none => none
+
+def pOutItems : Nat → List String → Option (List (Option OutArr) × List String)
+  | 0, rest => some ([], rest)
+  | n + 1, "-" :: rest => (pOutItems n rest).map fun r => (none :: r.1, r.2)
+  | n + 1, "o" :: a :: b :: rest => do
+    let a ← parseBool a
+    let b ← parseBool b
+    let r ← pOutItems n rest
+    some (some ⟨a, b⟩ :: r.1, r.2)
+  | _, _ => none
+
+def pOut : P OutSpec
+  | "N" :: rest => some (.none, rest)
+  | "O" :: a :: b :: rest => do
+    let a ← parseBool a
+    let b ← parseBool b
+    some (.one ⟨a, b⟩, rest)
+  | "M" :: n :: rest => do
+    let n ← n.toNat?
+    let (os, rest) ← pOutItems n rest
+    some (.many os, rest)
+  | _ => none
+
+def pMethod (s : String) : Option Method :=
+  match s with
+  | "__call__" => some .call | "reduce" => some .reduce | "accumulate" => some .accumulate
+  | "outer" => some .outer | "reduceat" => some .reduceat | "at" => some .at | _ => none
+
+def pErr (s : String) : Option (Option Err) :=
+  match s with
+  | "-" => some none
+  | "TypeError" => some (some .TypeError) | "ValueError" => some (some .ValueError)
+  | "RuntimeError" => some (some .RuntimeError) | "KeyError" => some (some .KeyError)
+  | "Other" => some (some .Other) | _ => none
+
+def unitStr (u : UnitV Float) : String := s!"{bitsStr u.scale}\t{bitsStr u.offset}\t{u.dim.str}"
+
+def effStr : Effect Float → String
+  | .retypeOut => "R"
+  | .writeOut i => s!"W{i}"
+  | .scaleOut => "S"
+  | .setOutUnits i u => s!"U{i}:{bitsStr u.scale}:{bitsStr u.offset}:{u.dim.str}"
+
+def effsStr (es : List (Effect Float)) : String := ";".intercalate (es.map effStr)
+
+def runStr (r : Run Float) : String :=
+  match r.result with
+  | .error e => s!"err\t{e.str}\t{effsStr r.effects}"
+  | .ok o =>
+    let u := match o.unit with | some u => unitStr u | none => "none\tnone\tnone"
+    let f := match o.factor with | some f => bitsStr f | none => "none"
+    let z := match o.factorItemsize with | some n => toString n | none => "none"
+    let e := match o.early with | some true => "1" | some false => "0" | none => "none"
+    s!"ok\t{u}\t{f}\t{z}\t{bitsStr o.mul}\t{e}\t{effsStr r.effects}"
+
+/-- `A <unit>` | `A-` | `N` | `[` … `]` -/
+partial def pObjs (acc : List (Obj Float)) : List String → Option (List (Obj Float) × List String)
+  | [] => some (acc.reverse, [])
+  | "]" :: rest => some (acc.reverse, rest)
+  | "N" :: rest => pObjs (.num :: acc) rest
+  | "A-" :: rest => pObjs (.arr none :: acc) rest
+  | "A" :: rest =>
+    match pUnit rest with
+    | some (u, rest') => pObjs (.arr (some u.v) :: acc) rest'
+    | none => none
+  | "[" :: rest =>
+    match pObjs [] rest with
+    | some (xs, rest') => pObjs (.seq xs :: acc) rest'
+    | none => none
+  | _ => none
+
+def pOptUnit : P (Option (UnitV Float))
+  | "-" :: rest => some (none, rest)
+  | "u" :: rest => (pUnit rest).map fun r => (some r.1.v, r.2)
+  | _ => none
+
+end C01Wire
+
+open C01Wire in
+def stepC01 (st : DriverState) (fields : List String) : Option String :=
+  let C : Ctx Float := Ctx.float st.pre (st.luts[0]!)
   match fields with
+  | "c01.dispatch" :: f :: m :: nin :: rest => do
+    let m ← pMethod m
+    let nin ← nin.toNat?
+    let (ins, rest) ← pOperands nin rest
+    let (out, rest) ← pOut rest
+    match rest with
+    | [ax, ke, ksh, wrap] =>
+      let ax : Option (Option Nat) := if ax == "-" then some none else ax.toNat?.map some
+      let ax ← ax
+      let ke ← pErr ke
+      let ksh ← pShape ksh
+      let c : Call Float := { ufunc := f, method := m, inputs := ins, out := out, axisLen := ax, kernelErr := ke,
+                              kernelShape := ksh }
+      let r := dispatch C c
+      if wrap == "eq" then some (runStr (eqNeOperator false r))
+      else if wrap == "ne" then some (runStr (eqNeOperator true r))
+      else if wrap == "-" then some (runStr r) else none
+    | _ => none
+  | "c01.coerce" :: rest => do
+    let (o, _) ← pOperand rest
+    match coerce C.ueq o with
+    | .error e => some s!"err\t{e.str}"
+    | .ok none => some "ok\tnone"
+    | .ok (some u) => some s!"ok\t{unitStr u.v}"
+  | "c01.validate" :: rest => do
+    let (objs, _) ← pObjs [] rest
+    match validateConsistency C.ueq objs with
+    | .error e => some s!"err\t{e.str}"
+    | .ok u => some s!"ok\t{unitStr u}"
+  | "c01.validate_v2" :: rest => do
+    let (r, rest) ← pUnit rest
+    let (objs, _) ← pObjs [] rest
+    match validateV2 C.ueq r.v objs with
+    | .error e => some s!"err\t{e.str}"
+    | .ok () => some "ok"
+  | "c01.comp" :: rest => do
+    let (a, rest) ← pOptUnit rest
+    let (b, _) ← pOptUnit rest
+    match arrayCompHelper C.pre C.lut C.ueq a b with
+    | .error e => some s!"err\t{e.str}"
+    | .ok .asIs => some "ok\tasis"
+    | .ok .adopt => some "ok\tadopt"
+    | .ok (.convertB f) => some s!"ok\tconvert\t{bitsStr f}"
+  | "c01.setitem" :: rest => do
+    let (s, rest) ← pUnit rest
+    let (v, _) ← pOptUnit rest
+    let v : SetValue Float := match v with | some u => .withUnits u | none => .bare
+    match setitem C.pre C.lut C.ueq s.v v with
+    | .error e => some s!"err\t{e.str}"
+    | .ok .raw => some "ok\traw"
+    | .ok (.converted f) => some s!"ok\tconverted\t{bitsStr f}"
+  | "c01.to" :: rest => do
+    let (u, rest) ← pUnit rest
+    let (t, _) ← pUnit rest
+    match toCheck C.pre C.lut u.v t.v with
+    | .error e => some s!"err\t{e.str}"
+    | .ok fo => some s!"ok\t{bitsStr fo.1}"
+  -- dumps of the regenerated tables (the translator is checked against the live objects)
+  | ["c01.dump.rule", f] =>
+    match C.T.ruleOf f with
+    | some r => some s!"ok\t{r.str}"
+    | none => some "none"
+  | ["c01.dump.sets"] =>
+    some ("ok\t" ++ ",".intercalate C.T.trig ++ "\t" ++
+      ",".intercalate (C.T.multiOut.map fun p => s!"{p.1}:{p.2}") ++ "\t" ++
+      ",".intercalate (C.T.powerMap.map fun p => s!"{p.1}:{p.2.1}:{p.2.2}") ++ "\t" ++
+      ",".intercalate [C.T.multiplyName, C.T.divideName, C.T.powerName, C.T.equalName,
+        C.T.notEqualName, C.T.clipName, C.T.modfName, C.T.divmodName] ++ "\t" ++
+      (if C.T.clipIsUfunc then "1" else "0") ++ "\t" ++
+      ",".intercalate Generated.unaryOperators ++ "\t" ++ ",".intercalate Generated.binaryOperators)
+  | ["c01.dump.alias", n] =>
+    match Generated.npUfuncAliases.find? (·.1 == n) with
+    | some p => some s!"ok\t{p.2}"
+    | none => some "none"
+  | ["c01.dump.checks", fn] =>
+    match Generated.handlerChecks.find? (·.1 == fn) with
+    | some (_, cs) => some ("ok\t" ++ ";".intercalate (cs.map fun c => c.1 ++ ":" ++ ",".intercalate c.2))
+    | none => some "none"
+  | "c01.covered" :: fn :: ops =>
+    some (if covered Generated.handlerChecks fn ops then "ok\t1" else "ok\t0")
+  | ["c01.ref.ufuncs"] => some ("ok\t" ++ ",".intercalate Ref.C01.commensurabilityRequiring)
+  | ["c01.ref.merging"] =>
+    some ("ok\t" ++ ";".intercalate (Ref.C01.mergingFunctions.map fun p => p.1 ++ ":" ++ ",".intercalate p.2))
+  | ["c01.ref.unchecked"] =>
+    some ("ok\t" ++ ";".intercalate (Ref.C01.uncheckedRows.map fun p => p.1 ++ ":" ++ ",".intercalate p.2)
+      ++ "\t" ++ ",".intercalate Ref.C01.uncheckedUfuncs)
+  | _ => none
+
+def opsC01 : Handler := fun st fields =>
+  match fields with
+  | op :: _ =>
+    if op.startsWith "c01." then
+      match stepC01 st fields with
+      | some r => some (st, r)
+      | none => some (st, "bad-op")
+    else none
   | _ => none
 
 end Unyt
